@@ -88,6 +88,18 @@ def run(pid, tier, seed, workdir, replay, skip_lean, t0):
 
     if replay:
         case = json.load(open(replay))
+        if case.get("kind") == "no-failing-input-found":
+            # a broken tie has no failing input of the property: replaying it means re-running the check of the
+            # same tier and seed and looking whether the tie (or a generated obligation) is still broken
+            import subprocess
+            env = dict(os.environ, VERIF_SEED=str(case.get("seed", seed)))
+            p = subprocess.run([os.path.join(paths.VERIF, "check"), pid, "--tier", case.get("tier", "quick")],
+                               env=env, text=True, capture_output=True)
+            still = p.returncode != 0
+            print((p.stdout + p.stderr)[-1500:])
+            print(("REPLAY-FAIL" if still else "REPLAY-PASS") + f" property={pid} replay={replay}"
+                  + " (broken tie: the whole check was re-run)")
+            return 1 if still else 0
         ok = mod.replay(ctx, case)
         print(("REPLAY-PASS" if ok else "REPLAY-FAIL") + f" property={pid} replay={replay}")
         return 0 if ok else 1
@@ -120,6 +132,11 @@ def run(pid, tier, seed, workdir, replay, skip_lean, t0):
             bad = [t for t in audit["theorems"] if not t["ok"]]
             if bad or audit["missing_required"]:
                 raise lean.BrokenCheck(f"proof audit: bad axioms {bad[:5]} missing {audit['missing_required']}")
+            if audit.get("pin_problems") and not gen_broken:
+                # the statements of the theorems are pinned (lean/pins); a weakened, renamed or dropped theorem is a
+                # defect of the machinery, never of the code under test
+                raise lean.BrokenCheck("statement pins: " + "; ".join(audit["pin_problems"][:8])
+                                       + " (after a deliberate change run tools/pin_statements.py)")
             if tier == "thorough" and os.environ.get("VERIF_SKIP_LEANCHECKER") != "1":
                 okc, outc = lean.leanchecker([f"PdeVerif.Props.{pid}"] + [f"PdeVerif.Props.{m}" for m in extra])
                 ctx.extra["leanchecker"] = "ok" if okc else outc
@@ -133,6 +150,17 @@ def run(pid, tier, seed, workdir, replay, skip_lean, t0):
         except lean.BrokenCheck:
             if not gen_broken:
                 raise
+
+    # a run that explored nothing proves nothing: floors on what must have been executed (a module may raise them
+    # per leg through MIN_LEGS = {leg prefix: minimum count at the quick tier})
+    if not gen_broken:
+        if ctx.evaluations == 0 or ctx.impl_traces == 0 or ctx.monitor_evals == 0:
+            raise lean.BrokenCheck(f"nothing explored: cases {ctx.evaluations}, executions compared with the model "
+                                   f"{ctx.impl_traces}, monitor evaluations {ctx.monitor_evals}")
+        for leg, floor in getattr(mod, "MIN_LEGS", {}).items():
+            got = sum(v for k, v in ctx.legs.items() if k.startswith(leg))
+            if got < floor:
+                raise lean.BrokenCheck(f"leg `{leg}` explored only {got} cases (floor {floor})")
 
     # 4. verdict -------------------------------------------------------------------------------
     known = findings.load()
@@ -188,7 +216,7 @@ def run(pid, tier, seed, workdir, replay, skip_lean, t0):
                     if findings.match(pid, (d.get("key") or {}) if isinstance(d, dict) else {}, known) is None]
             if rest:
                 path = write_replay(pid, f"broken_tie_{seed}.json", {
-                    "property": pid, "kind": "no-failing-input-found",
+                    "property": pid, "kind": "no-failing-input-found", "seed": seed, "tier": tier,
                     "broken": [
                         (d if "obligation" in d else {
                             "correspondence": d["leg"], "case": d["case"], "model": d["model"],
